@@ -352,7 +352,8 @@ class Histories(Part):
                 sut(t.rstrip_end, size)
                 s = m.plain
                 ws = len(s) - len(s.rstrip())
-                cut = min(ws, len(s) - size) if len(s) > size else 0
+                cells = OC.width(s)  # "size" is a width: whitespace beyond that many cells is removed
+                cut = min(ws, cells - size) if cells > size else 0
                 new = (t, m.slice(0, len(s) - max(0, cut)))
             elif name == "set_length":
                 nl = op[2]
